@@ -64,4 +64,5 @@ A_smErrUnchanged  == [][P(C03_smErrorUnchanged)]_vars
 A_smMembers       == [][P(C03_smRotateKeepsMembers)]_vars
 A_newcomerFlag    == [][C05_newcomerFlag(sm, act'.op, act'.res, sm', NewSeats)]_vars
 A_continuity      == [][P(C05_continuity)]_vars
+A_rejoinTerms     == [][P(C05_rejoinTerms)]_vars
 =============================================================================
